@@ -252,7 +252,7 @@ func main() {
 		workers = 8
 	}
 	debug.SetMemoryLimit(int64(r.QT(2, 4)) << 30)
-	r.Require("same_net_different_history", "tombstone_in_net_write_set", "via_tx_commit", "tx_reset_discards", "delete_then_put", "redundant_overwrite")
+	r.Require("same_net_different_history", "tombstone_in_net_write_set", "via_tx_commit", "tx_reset_discards", "delete_then_put", "redundant_overwrite", "ledger_runs")
 	all := menu("blk", "tx")
 	blkOnly := menu("blk")
 
@@ -422,6 +422,10 @@ func main() {
 		}
 		return true
 	})
+
+	// ---------------- phase D: ledger level (see ledger.go)
+	ledgerNote := ledgerPhase(r, workers)
+	r.Note("phaseD_ledger", ledgerNote)
 
 	var ex []string
 	collEx.Range(func(k, _ any) bool { ex = append(ex, k.(string)); return len(ex) < 3 })
